@@ -185,11 +185,13 @@ def encs(detector, ident=0, slots="", a=0.0, b=0.0, c=0.0, d=0.0, sleep_scale=0.
 
 
 def detector_settings(detector):
-    """settings of the sub-objects of the detector (characteristics, geometry) a model may read"""
+    """settings of the sub-objects of the detector (characteristics, geometry) and of the readout a model may read"""
     out = []
     for get in (lambda: detector.characteristics.pre_amplification, lambda: detector.characteristics.full_well_capacity,
                 lambda: detector.characteristics.adc_bit_resolution, lambda: detector.geometry.total_thickness,
-                lambda: detector.geometry.pixel_vert_size, lambda: detector.geometry.pixel_horz_size):
+                lambda: detector.geometry.pixel_vert_size, lambda: detector.geometry.pixel_horz_size,
+                # ... and of the readout this run was started with (time of the only step, destructive or not)
+                lambda: detector.time, lambda: 1.0 if detector.non_destructive_readout else 0.0):
         try:
             out.append(float(get()))
         except Exception:  # noqa: BLE001  (setting lost)
